@@ -116,3 +116,17 @@ Definition minify (cfg : config) (ts : list tok) : result (list (list Z)) :=
 (* source chunks -> minified text: lexer, then writer (the parser does not influence this writer) *)
 Definition luamin_text (cfg : config) (chunks : list (list Z)) : result (list Z) :=
   ts <- model_lex chunks ;; cs <- minify cfg ts ;; Ok (concat cs).
+
+(* ---------- the __lua__ section P8Formatter.to_file writes (pico8/game/formatter/p8.py, source pinned
+   as p8_lua_section_src): the chunks of to_lines, then a line break unless the last chunk ends with
+   one.  (The P8SCII -> Unicode -> UTF-8 conversion of every chunk is C15's bijection; the harness
+   converts the file text back.) *)
+Definition ends_with_lf (c : list Z) : bool := match c with [] => false | _ :: _ => last c 0 =? 10 end.
+
+Definition p8_lua_text (chunks : list (list Z)) : list Z :=
+  concat chunks ++
+  (if match chunks with [] => false | _ :: _ => ends_with_lf (last chunks []) end then [] else [10]).
+
+(* `p8tool luamin` / `p8tool build --lua-minify` on a source given as lines: the __lua__ text of the written cart *)
+Definition luamin_cart_text (cfg : config) (chunks : list (list Z)) : result (list Z) :=
+  ts <- model_lex chunks ;; cs <- minify cfg ts ;; Ok (p8_lua_text cs).
